@@ -205,8 +205,29 @@ func runC02(ctx *core.Ctx, idx int) *core.Result {
 						hotForm = []string{"arr[%s]", "%s.fld", "conv(%s, 1)", "%s + 1", "&%s", "%s"}[r.Intn(6)]
 						base = fmt.Sprintf(hotForm, hot)
 					}
+					// two spellings that mean the same to the type checker and are different code all the same
+					// (interface{} and any, byte and uint8, rune and int32, a redundant conversion or parenthesis in a type)
+					alias := [2]string{}
+					if hot == "" && !ident && n >= 2 && r.Intn(6) == 0 {
+						pairs := [][2]string{{"interface{}", "any"}, {"byte", "uint8"}, {"rune", "int32"}, {"[]interface{}", "[]any"}, {"map[string]interface{}", "map[string]any"}, {"func(interface{})", "func(any)"}}
+						alias = pairs[r.Intn(len(pairs))]
+						if r.Intn(2) == 0 {
+							alias[0], alias[1] = alias[1], alias[0]
+						}
+						hotForm = []string{"conv[%s](v)", "[]%s{v}", "v.(%s)", "make(chan %s, 1)", "func(p %s) {}", "new(%s)"}[r.Intn(6)]
+						base = fmt.Sprintf(hotForm, alias[0])
+					}
 					fillers := []string{base}
 					for k := 1; k < n; k++ {
+						if alias[0] != "" {
+							fv, name := base, "equal-spelling"
+							if r.Intn(2) == 0 {
+								fv, name = fmt.Sprintf(hotForm, alias[1]), "alias-spelling-differs"
+							}
+							fillers = append(fillers, fv)
+							rels = append(rels, name)
+							continue
+						}
 						rel := 0
 						if r.Intn(2) == 0 {
 							rel = 1 + r.Intn(5)
